@@ -29,9 +29,10 @@ def send_site(body, what):
     if not (enc < cmpm.start() < wr):
         raise AnchorLost(what + ': the comparison does not sit between encode and write')
     var = cmpm.group(2)
-    src = re.search(r'let\s+' + var + r'\s*=\s*([^;]+);', body)
-    if not src:
-        raise AnchorLost(what + ': limit variable')
+    binds = list(re.finditer(r'let\s+(?:mut\s+)?' + var + r'\b[^=;]*=\s*([^;]+);', body))
+    if len(binds) != 1 or re.search(r'\b' + var + r'\s*(?:[-+*/|&^]?=)[^=]', body[binds[0].end():cmpm.start()]):
+        raise AnchorLost(what + ': the limit variable is bound or assigned more than once')
+    src = binds[0]
     e = re.sub(r'\s+', '', src.group(1))
     if e in ('self.settings().max_field_section_size', 'self.inner.settings().max_field_section_size'):
         peer = True
@@ -67,7 +68,7 @@ def recv_site(body, what):
     e = m.group(1)
     if e in ('self.max_field_section_size', 'self.inner.max_field_section_size'):
         own = True
-    elif 'settings()' in e:
+    elif e in ('self.settings().max_field_section_size', 'self.inner.settings().max_field_section_size'):
         own = False
     else:
         raise AnchorLost(what + ': limit argument ' + e)
@@ -76,8 +77,93 @@ def recv_site(body, what):
     return own
 
 
+def src_kind(expr, what):
+    e = re.sub(r'\s+', '', expr)
+    if e in ('self.max_field_section_size', 'self.config.settings.max_field_section_size', 'max_field_section_size',
+             'self.inner.max_field_section_size'):
+        return 'SrcOwn'
+    if e in ('self.settings().max_field_section_size', 'self.inner.settings().max_field_section_size',
+             'self.conn_state.settings().max_field_section_size'):
+        return 'SrcPeer'
+    if e == '0':
+        return 'SrcZero'
+    raise AnchorLost(what + ': where the limit comes from: ' + e)
+
+
+def mentions(src):
+    """all lines of a file that mention the field, whitespace-normalised (comments are already stripped)"""
+    return [re.sub(r'\s+', ' ', l).strip() for l in src.text.splitlines() if 'max_field_section_size' in l]
+
+
+def flow(repo, f, spans):
+    """how the configured limit travels from the Builder to every handle that can receive a field section"""
+    from rustsrc import match_close
+    # Builder -> client SendRequest+Connection / server Connection
+    for role in ('client', 'server'):
+        b = Source(repo + '/h3/src/%s/builder.rs' % role)
+        ms = mentions(b)
+        want = ['pub fn max_field_section_size(&mut self, value: u64) -> &mut Self {', 'self.config.settings.max_field_section_size = value;',
+                'max_field_section_size: self.config.settings.max_field_section_size,']
+        if ms != want:
+            raise AnchorLost('%s/builder.rs: limit flow %r' % (role, ms))
+        f['flow_builder_' + role] = 'SrcOwn'
+    # client: SendRequest::send_request -> RequestStream::new(.., self.max_field_section_size, ..); Clone
+    cc = Source(repo + '/h3/src/client/connection.rs')
+    body, spans['flow_send_request_new_stream'] = cc.fn_body('send_request')
+    m = re.search(r'connection::RequestStream::new\(\s*[^,]+(?:\([^)]*\))*[^,]*,\s*([^,]+),', body)
+    if not m:
+        raise AnchorLost('send_request: RequestStream::new')
+    f['flow_client_stream'] = src_kind(m.group(1), 'send_request -> RequestStream::new')
+    blk, spans['flow_clone'], _ = cc.item_block(r'impl<[^>]*>\s*Clone\s+for\s+SendRequest')
+    m = re.search(r'max_field_section_size\s*:\s*([^,]+),', blk)
+    if not m:
+        raise AnchorLost('Clone for SendRequest')
+    f['flow_clone'] = src_kind(m.group(1), 'Clone for SendRequest')
+    if len(mentions(cc)) != 6:
+        raise AnchorLost('client/connection.rs: limit mentions %r' % mentions(cc))
+    # server: Connection -> RequestResolver -> RequestStream::new / ResolvedRequest::new
+    sc = Source(repo + '/h3/src/server/connection.rs')
+    ms = mentions(sc)
+    if ms != ['pub(super) max_field_section_size: u64,', 'max_field_section_size: self.max_field_section_size,']:
+        raise AnchorLost('server/connection.rs: limit flow %r' % ms)
+    f['flow_server_resolver'] = 'SrcOwn'
+    sr = Source(repo + '/h3/src/server/request.rs')
+    body, spans['flow_accept_with_frame'] = sr.fn_body('accept_with_frame')
+    m = re.search(r'connection::RequestStream::new\(\s*self\.frame_stream\s*,\s*([^,]+),', body)
+    if not m:
+        raise AnchorLost('accept_with_frame: RequestStream::new')
+    f['flow_server_stream'] = src_kind(m.group(1), 'accept_with_frame -> RequestStream::new')
+    if len(mentions(sr)) != 8:
+        raise AnchorLost('server/request.rs: limit mentions %r' % mentions(sr))
+    # connection.rs: RequestStream::new stores its argument; split() gives the receive half the limit
+    co = Source(repo + '/h3/src/connection.rs')
+    body, spans['flow_split'] = co.fn_body('split')
+    halves = re.findall(r'RequestStream\s*\{\s*stream:\s*(\w+)\s*,(.*?)\}', body, re.S)
+    got = {}
+    for which, rest in halves:
+        m = re.search(r'max_field_section_size\s*:\s*([^,]+),', rest)
+        if not m:
+            raise AnchorLost('split: half without the limit')
+        got[which] = src_kind(m.group(1), 'split() ' + which + ' half')
+    if set(got) != {'send', 'recv'}:
+        raise AnchorLost('split: halves %r' % sorted(got))
+    f['flow_split_recv'], f['flow_split_send'] = got['recv'], got['send']
+    ms = [l for l in mentions(co)]
+    if len(ms) != 8 or 'max_field_section_size,' not in ms:
+        raise AnchorLost('connection.rs: limit mentions %r' % ms)
+    # the stream wrappers only forward
+    for path, n in (('client/stream.rs', 2), ('server/stream.rs', 1)):
+        w = Source(repo + '/h3/src/' + path)
+        if len(mentions(w)) != n:
+            raise AnchorLost(path + ': limit mentions %r' % mentions(w))
+        body, _ = w.fn_body('split')
+        if not re.search(r'let\s*\(\s*send\s*,\s*recv\s*\)\s*=\s*self\.inner\.split\(\)\s*;', body):
+            raise AnchorLost(path + ': split wrapper')
+
+
 def extract(repo):
     f, spans = {}, {}
+    flow(repo, f, spans)
     cc = Source(repo + '/h3/src/client/connection.rs')
     body, spans['send_request'] = cc.fn_body('send_request')
     f['send_request'] = send_site(body, 'send_request')
@@ -174,6 +260,12 @@ def render(f):
     L.append('(* receive sites: the limit handed to decode_stateless is the endpoint\'s own configured one *)')
     for k in ('recv_request_own', 'recv_response_own', 'recv_trailers_own'):
         L.append('Definition lim_%s : bool := %s.' % (k, b(f[k])))
+    L += ['(* where each handle gets its receive limit from: the configured value travels Builder -> Connection / SendRequest',
+          '   (-> clone) -> RequestStream (-> split halves) *)',
+          'Inductive lim_src := SrcOwn | SrcPeer | SrcZero.']
+    for k in ('flow_builder_client', 'flow_builder_server', 'flow_clone', 'flow_client_stream', 'flow_server_resolver',
+              'flow_server_stream', 'flow_split_recv', 'flow_split_send'):
+        L.append('Definition lim_%s : lim_src := %s.' % (k, f[k]))
     L.append('(* any other DecoderError at a receive site: handle_connection_error_on_stream with this code *)')
     for k in ('recv_request_decomp_code', 'recv_response_decomp_code', 'recv_trailers_decomp_code'):
         L.append('Definition lim_%s : N := %s.' % (k, f[k]))
